@@ -6,6 +6,7 @@ import (
 	"fmt"
 	"go/token"
 	"go/types"
+	"math"
 	"sort"
 	"strings"
 
@@ -20,7 +21,7 @@ func init() {
 			"the response header rejects lengths outside (4, MaxResponseSize] and the receive loop sizes its buffer from that checked length (C10.cap); decode/versionedDecode succeed only if the whole buffer was consumed, length and CRC fields report a mismatch as an error (C10.consumed); decoder loops bounded by remaining() > 0 consume input or exit on every iteration (C10.loop-progress). " +
 			"no decoding step of the response path whose error is non-nil is answered with `return nil` — after a failed getter the cursor is at the end of the input, so such a swallowed error would let a truncated response through the final length test (C10.err-propagated; the ErrInsufficientData comparison of the truncated-tail handling is the one exempt idiom). " +
 			"NOT covered: memory use of decompression, hangs inside third-party codecs, CRC collision strength, semantic validity of decoded values.",
-		Rules: []func(*Ctx){c10Prim, c10Alloc, c10Cap, c10Consumed, c10LoopProgress, c10ErrPropagated, c10ErrLost, c09PoolOnce, c10RecordsPerBatch, c04OwnedOutput, c09PoolOnceDeferredClosure},
+		Rules: []func(*Ctx){c10Prim, c10Alloc, c10Cap, c10Consumed, c10LoopProgress, c10ErrPropagated, c10ErrLost, c09PoolOnce, c10RecordsPerBatch, c04OwnedOutput, c09PoolOnceDeferredClosure, c10MessageSetConsumesOrFlags, c09RecordsFresh},
 	})
 }
 
@@ -173,6 +174,16 @@ func (pc *primChecker) isAdvance(in ssa.Instruction) bool {
 // remValid: every path from entry to site crosses an edge establishing the need, and the cursor
 // does not move between that edge and the site.
 func (pc *primChecker) remValid(fn *ssa.Function, site ssa.Instruction, n remNeed) (bool, []*ssa.BasicBlock) {
+	// remaining ≥ w·v says something only if w·v cannot wrap around: v is narrow by construction (read from a 16- or
+	// 32-bit field), or v ≤ remaining is established as well (a 64-bit uvarint count of 2^62 makes 4·v == 0)
+	if n.v != nil && n.mulW > 1 {
+		b := pc.e.base(dStrip(n.v))
+		if !(b.ub == ubK && b.k <= math.MaxInt64/n.mulW) && !narrowInt(n.v) {
+			if ok, path := pc.remValid(fn, site, remNeed{v: n.v}); !ok {
+				return false, path
+			}
+		}
+	}
 	reg := WholeFn(fn)
 	r := *reg
 	r.Cut = func(from, to *ssa.BasicBlock) bool { return pc.establishesRem(from, to, n) }
@@ -1060,4 +1071,42 @@ func describeOr(v ssa.Value) string {
 		return "unset"
 	}
 	return describe(v)
+}
+
+// narrowInt: v is (a conversion of) an integer of at most 32 bits — a small multiple of it cannot wrap in 64 bits.
+func narrowInt(v ssa.Value) bool {
+	for d := 0; d < 6; d++ {
+		if b, ok := v.Type().Underlying().(*types.Basic); ok {
+			switch b.Kind() {
+			case types.Int8, types.Int16, types.Int32, types.Uint8, types.Uint16, types.Uint32:
+				return true
+			}
+		}
+		switch x := v.(type) {
+		case *ssa.Convert:
+			v = x.X
+		case *ssa.ChangeType:
+			v = x.X
+		case *ssa.Phi:
+			// a merge of narrow values (and constants) is narrow
+			for _, e := range x.Edges {
+				if _, isC := e.(*ssa.Const); isC {
+					continue
+				}
+				if e == ssa.Value(x) || !narrowInt(e) {
+					return false
+				}
+			}
+			return true
+		default:
+			// the result of an immediately-invoked literal (an inlined-back helper) is what the literal returns; a
+			// local variable assigned once is the value assigned
+			w := throughCell(strip(v))
+			if w == v {
+				return false
+			}
+			v = w
+		}
+	}
+	return false
 }
